@@ -5,7 +5,11 @@ import sys
 HERE = os.path.dirname(os.path.dirname(os.path.abspath(__file__)))
 REPO = os.environ.get('HEPH_REPO', '/repo')
 
+from props import _identity  # noqa: E402
+
 ID = 'C07'
+# modules whose functions must not keep state between calls (pyvc.statecheck.hidden_state_census, syntactic)
+HIDDEN_STATE_MODULES = ['src.ir.types']
 LEVEL = 'proof'
 SIDECARS = ['types_sub', 'types_ctor', 'types_inst']
 _T = 'src.ir.types.'
@@ -16,6 +20,8 @@ FUNCTIONS = [_T + f for f in (
     'TypeConstructor.new', 'ParameterizedType.to_variance_free',
     'AbstractType.has_type_variables', 'Builtin.has_type_variables', 'SimpleClassifier.has_type_variables',
     'WildCardType.has_type_variables', 'ParameterizedType.has_type_variables')]
+SIDECARS = SIDECARS + [x for x in _identity.SIDECARS if x not in SIDECARS]
+FUNCTIONS = FUNCTIONS + [f for f in _identity.FUNCTIONS if f not in FUNCTIONS]
 TRUSTED = [
     'copy.deepcopy returns a fresh object of the same class with the same name and as many supertypes / type parameters, '
     'and modifies no object that existed before the call; copy() of a list is a value copy',
